@@ -25,8 +25,10 @@ TRUSTED = [
     "Coq 8.16.1 kernel, vm_compute for model evaluation (no native_compute)",
     "hand-written model Model/Evaluators.v (heap of Individual objects + the two work lists) tied to operators.py "
     "Evaluator / WorstCaseEvaluator / GradientEvaluator by this correspondence run",
-    "the arithmetic is abstract under the theorems (Section variables add/sub/mul/div/abs); the correspondence runs the "
-    "PrimFloat instance (binary64, round-to-nearest-even) and compares bit for bit",
+    "the arithmetic and Python's builtin sum() are abstract under the theorems (Section variables add/sub/mul/div/abs/psum); the "
+    "correspondence runs the PrimFloat instance (binary64, round-to-nearest-even) with sum() as CPython 3.12 implements it "
+    "(Neumaier compensation on exact floats, plain left fold on numpy.float64 / int items) and compares bit for bit",
+    "the step delta is a Section variable under the theorems; the run driver and the direct oracle use 1e-4",
     "Job.evaluate is abstracted to: costs := f(vector), costs_signed := sgn(costs) ++ [flag], state := EVALUATED; "
     "f, sgn (sign * np.round(cost, 7)) and the flag are recorded on the implementation and given to the model as a table "
     "(retry loop, constraints, data store: properties C05/C06)",
@@ -48,7 +50,8 @@ ASSUMPTIONS = [
 HEADER = ("From Artap Require Import Run.C14Run.\nFrom Coq Require Import List ZArith Floats.\nImport ListNotations.\n"
           "Open Scope float_scope.\n")
 
-VGRID = [0.0, 0.25, 0.5, 0.75, 1.0, -0.5, 0.1, 0.2, 0.30000000000000004, 1.5, -0.0, 2.0, 1e-3, 0.9999, 3.0, -1.25]
+VGRID = [0.0, 0.25, 0.5, 0.75, 1.0, -0.5, 0.1, 0.2, 0.30000000000000004, 1.5, -0.0, 2.0, 1e-3, 0.9999, 3.0, -1.25,
+         -1.0, -2.0, 0.50000000001]      # hash(-1.0) == hash(-2.0); 0.5 and 0.5+1e-11 are `==` for Individual.__eq__
 TOLS = [0.25, 0.5, 0.1, 1e-3, 0.0, 1.0, 1e-9, 0.05, 2.0 ** -30, 0.75, 1e-4]
 COEF = [1.0, -1.0, 0.5, 2.0, 0.0, 3.0, -0.25, 0.1, 1e3, 1e-3, 7.0]
 FAMILIES = ["quad", "quad", "lin", "lin", "abs", "sin", "const", "step", "hash", "intstep", "prod", "huge"]
@@ -119,7 +122,7 @@ def gen_case(rng, forced=None):
     wc = forced.get("wc", rng.random() < 0.6)
     n = forced.get("n", rng.choice([1, 2, 2, 3, 3]))
     m = forced.get("m", rng.choice([1, 1, 2]))
-    nb = forced.get("nb", rng.choice([1, 2, 2, 3, 3, 4]))
+    nb = forced.get("nb", rng.choice([1, 2, 2, 3, 3, 4]) if rng.random() < 0.93 else rng.choice([5, 6, 8]))
     grid = VGRID[:6] if rng.random() < 0.4 else VGRID
     pool = [[rng.choice(grid) for _ in range(n)] for _ in range(3)]
     batches = []
@@ -141,7 +144,15 @@ def gen_case(rng, forced=None):
             if created and rng.random() < 0.7:
                 again[bi] = sorted(rng.sample(range(created), rng.choice([1, 1, 2]) if created > 1 else 1))
             created += len(b)
-    return {"mode": "direct", "wc": wc, "n": n, "m": m, "tols": tols, "objs": objs, "again": again,
+    pre = [[False] * len(b) for b in batches]
+    if forced.get("pre") is not None:
+        pre = forced["pre"]
+    elif "batches" not in forced and rng.random() < 0.1:
+        pre = [[rng.random() < 0.5 for _ in b] for b in batches]
+    flags = {"vec_numpy": rng.random() < 0.1, "reuse_list": rng.random() < 0.25, "shared_param": rng.random() < 0.3,
+             "constr": rng.random() < 0.15, "id_collide": rng.random() < 0.15}
+    flags.update(forced.get("flags", {}))
+    return {"mode": "direct", "wc": wc, "n": n, "m": m, "tols": tols, "objs": objs, "again": again, "pre": pre, "flags": flags,
             "criteria": forced.get("criteria", [rng.choice(["minimize", "maximize"]) for _ in range(m)]),
             "ret_numpy": forced.get("ret_numpy", rng.random() < 0.2), "int_tol": rng.random() < 0.05,
             "batches": batches}
@@ -156,7 +167,9 @@ def gen_algo_case(rng):
                       "b": rng.choice(COEF[:8])} for _ in range(m)],
             "criteria": [rng.choice(["minimize", "maximize"]) for _ in range(m)], "ret_numpy": False, "int_tol": False,
             "pop": rng.choice([2, 3, 4, 6]), "gens": rng.choice([2, 3, 4, 5]), "seed": rng.randrange(10 ** 6), "batches": None,
-            "again": None}
+            "again": None, "pre": None,
+            "flags": {"vec_numpy": False, "reuse_list": False, "shared_param": rng.random() < 0.3, "constr": rng.random() < 0.3,
+                      "id_collide": False}}
 
 
 def close(a, b):
@@ -195,10 +208,16 @@ def run(ctx):
             self.parameters = [{'name': 'x%d' % i, 'initial_value': 0.5, 'bounds': [-2.0, 3.0],
                                 'tol': (int(t) if case["int_tol"] and float(t) == int(t) and t != 0 else t)}
                                for i, t in enumerate(case["tols"])]
+            if case["flags"]["shared_param"] and len(set(case["tols"])) == 1:
+                self.parameters = [self.parameters[0]] * len(case["tols"])      # one dict object for every axis
+            self.constr = case["flags"]["constr"]
             self.costs = [{'name': 'F%d' % k, 'criteria': c} for k, c in enumerate(case["criteria"])]
             self.fns = [make_objective(s) for s in case["objs"]]
             self.ret_numpy = case["ret_numpy"]
             self.calls = []          # (Individual object, vector at the call, returned costs)
+
+        def evaluate_inequality_constraints(self, x):
+            return [x[0] - 0.3] if self.constr else []
 
         def evaluate(self, individual):
             v = list(individual.vector)
@@ -370,25 +389,47 @@ def run(ctx):
                     number[id(x)] = len(order)
                     order.append(x)
 
-        def after_batch(inds):
-            idss.append([number[id(x)] for x in inds])
-            for x in inds:
+        def after_batch(before, inds):
+            for x in before:
                 number_new(x.children)
+            idss.append([number.get(id(x), 999999) for x in inds])     # the caller's list after the call: must be unchanged
+        import copy
+        params0 = copy.deepcopy(problem.parameters)
+        params_changed = []
+
+        def check_params(bi):
+            if problem.parameters != params0 and not params_changed:
+                params_changed.append(bi)
+                ctx.mismatches.append({"what": "the evaluator modified problem.parameters (the model's tolerances are constants)",
+                                       "correspondence": "c14", "case": {k: case.get(k) for k in ("mode", "wc", "n", "m", "tols", "batches")},
+                                       "batch": bi, "before": params0, "after": copy.deepcopy(problem.parameters)})
         if case["mode"] == "direct":
             created = []
             resubmits = any(case["again"])
+            plain = Direct(problem, evaluator_type=EvaluatorType.SIMPLE) if any(any(p) for p in case["pre"]) else None
+            shared = []
             for bi, batch in enumerate(case["batches"]):
-                new = [Individual(list(v)) for v in batch]
+                if case["flags"]["id_collide"]:
+                    Individual.counter = 0           # ids collide between batches and with earlier children
+                new = [Individual(np.array(v, dtype=np.float64) if case["flags"]["vec_numpy"] else list(v)) for v in batch]
                 number_new(new)
-                inds = new + [created[k] for k in case["again"][bi]]
+                if plain is not None:
+                    todo = [x for x, flag in zip(new, case["pre"][bi]) if flag]
+                    if todo:
+                        plain.evaluate(todo)         # evaluated elsewhere first: state EVALUATED, m costs, never post-processed
+                inds = shared if case["flags"]["reuse_list"] else []
+                del inds[:]                          # the same list object, refilled in place, for every call
+                inds.extend(new + [created[k] for k in case["again"][bi]])
+                before = list(inds)
                 created.extend(new)
-                submitted.append([(x, list(x.vector)) for x in inds])
+                submitted.append([(x, [float(t) for t in x.vector]) for x in before])
                 try:
                     alg.evaluate(inds)
                 except IndexError as e:
                     raised = "IndexError"
                     break
-                after_batch(inds)
+                after_batch(before, inds)
+                check_params(bi)
                 if not resubmits:
                     oracle(case, problem, submitted, bi, n, m)
         else:
@@ -400,10 +441,12 @@ def run(ctx):
                 for x in inds:
                     if x.state != Individual.State.EMPTY:
                         resub.append(x)
-                number_new(inds)
-                submitted.append([(x, list(x.vector)) for x in inds])
+                before = list(inds)
+                number_new(before)
+                submitted.append([(x, [float(t) for t in x.vector]) for x in before])
                 orig_eval(inds)
-                after_batch(inds)
+                after_batch(before, inds)
+                check_params(len(submitted) - 1)
                 oracle(case, problem, submitted, len(submitted) - 1, n, m)
             ev.evaluate = eval_rec
             pyrandom.seed(case["seed"])
@@ -413,6 +456,7 @@ def run(ctx):
                 raise AssertionError("the algorithm submitted an already evaluated Individual: outside the model")
             case["batches"] = [[v for (_, v) in b] for b in submitted]
             case["again"] = [[] for _ in submitted]
+            case["pre"] = [[False] * len(b) for b in submitted]
         if raised is None and not resubmits:
             oracle_proc(case, proc, submitted)
             if len(ev.individuals) != 0 or len(ev.to_evaluate) != 0:
@@ -436,6 +480,10 @@ def run(ctx):
                 continue
             seen.add(key)
             table.append(([num(t) for t in v], [num(t) for t in c], [num(t) for t in sc[:-1]], bool(sc[-1])))
+        kinds0 = set(type(c[0]) is float for (_, _, c) in problem.calls)
+        if len(kinds0) > 1:
+            raise AssertionError("first objective returns exact floats for some vectors and other numbers for others")
+        case["comp"] = kinds0 == {True}
         obs = None if raised else {
             "cells": [cell(x) for x in order], "log": [[num(t) for t in v] for (_, v, _) in problem.calls],
             "proc": [[number.get(id(o), UNKNOWN) for o in lst] for lst in proc],
@@ -455,10 +503,11 @@ def run(ctx):
                   ll(c["children"], nl), optl(c["sens"], fl), optl(c["grad"], enc_vec))
 
     def encode(case, obs, table):
-        c = "{| c_wc := %s; c_comp := %s; c_m := %s; c_tols := %s; c_table := %s; c_batches := %s; c_again := %s |}" % (
-            bl(case["wc"]), bl(not case["ret_numpy"] and case["objs"][0]["kind"] != "intstep"), nl(case["m"]), enc_vec(case["tols"]),
+        c = "{| c_wc := %s; c_comp := %s; c_m := %s; c_tols := %s; c_table := %s; c_batches := %s; c_again := %s; c_pre := %s |}" % (
+            bl(case["wc"]), bl(case["comp"]), nl(case["m"]), enc_vec(case["tols"]),
             ll(table, lambda t: pl(enc_vec(t[0]), enc_vec(t[1]), enc_vec(t[2]), bl(t[3]))),
-            ll(case["batches"], lambda b: ll(b, enc_vec)), ll(case["again"], lambda l: ll(l, nl)))
+            ll(case["batches"], lambda b: ll(b, enc_vec)), ll(case["again"], lambda l: ll(l, nl)),
+            ll(case["pre"], lambda l: ll(l, bl)))
         if obs is None:
             return c, "None"
         e = "(Some %s)" % pl(ll(obs["cells"], enc_cell), ll(obs["log"], enc_vec), ll(obs["proc"], lambda l: ll(l, nl)),
@@ -469,17 +518,26 @@ def run(ctx):
     hist = {"worst_case": 0, "gradient": 0, "batches": {}, "designs_per_case": {}, "n": {}, "m": {}, "objective_kinds": {},
             "algorithm_runs": {}, "objective_calls": 0, "cells": 0, "raised_index_error": 0, "zero_sensitivity": 0,
             "nonfinite_values": 0, "duplicate_vectors_in_case": 0,
-            "resubmission_cases": 0}
+            "resubmission_cases": 0, "pre_evaluated_cases": 0, "flags": {}}
 
     def bump(d, k):
         d[str(k)] = d.get(str(k), 0) + 1
 
     def add(case):
-        obs, table = implementation(case)
+        try:
+            obs, table = implementation(case)
+        except Exception as e:      # not behaviour of the unchanged code: reported, and the other cases are still compared
+            import traceback
+            ctx.count(None, nontrivial=False)
+            if len(ctx.mismatches) < 20:
+                ctx.mismatches.append({"what": "the implementation raised %r on a case the model completes" % (e,), "correspondence": "c14",
+                                       "case": {k: case.get(k) for k in ("mode", "wc", "n", "m", "tols", "objs", "batches", "again", "pre", "flags", "seed", "pop", "gens")},
+                                       "traceback": traceback.format_exc()[-1500:]})
+            return
         c, e = encode(case, obs, table)
         cases.append(c)
         expected.append(e)
-        mt = {k: case[k] for k in ("mode", "wc", "n", "m", "tols", "objs", "criteria", "batches", "again")}
+        mt = {k: case[k] for k in ("mode", "wc", "n", "m", "tols", "objs", "criteria", "batches", "again", "pre", "flags")}
         for k in ("pop", "gens", "seed"):
             if k in case:
                 mt[k] = case[k]
@@ -496,6 +554,10 @@ def run(ctx):
         for o in case["objs"]:
             bump(hist["objective_kinds"], o["kind"])
         hist["resubmission_cases"] += any(case["again"])
+        hist["pre_evaluated_cases"] += any(any(p) for p in case["pre"])
+        for k, v in case["flags"].items():
+            if v:
+                bump(hist["flags"], k)
         if case["mode"] != "direct":
             bump(hist["algorithm_runs"], case["mode"] + ("/worst_case" if case["wc"] else "/gradient"))
         if obs is None:
@@ -509,7 +571,7 @@ def run(ctx):
             hist["duplicate_vectors_in_case"] += len(vs) != len(set(vs))
         key = (case["mode"], case["wc"], case["n"], case["m"], tuple(case["tols"]),
                tuple((o["kind"], tuple(o["a"]), o["b"]) for o in case["objs"]),
-               tuple(tuple(tuple(v) for v in b) for b in case["batches"]), tuple(tuple(a) for a in case["again"]))
+               tuple(tuple(tuple(v) for v in b) for b in case["batches"]), tuple(tuple(a) for a in case["again"]), tuple(tuple(a) for a in case["pre"]))
         ctx.count(key, nontrivial=(len(case["batches"]) >= 2 and obs is not None))
         if len(case["batches"]) == 2 and nd <= 3 and case["mode"] == "direct" and obs is not None and not any(case["again"]):
             ctx.sample(mt, limit=3)
@@ -539,8 +601,25 @@ def run(ctx):
          "again": [[], [1], [0, 1, 2]]},
         {"wc": False, "n": 2, "m": 1, "tols": [0.1, 0.1], "objs": q1, "batches": [[[0.5, 0.5]], [[0.1, 0.2]], []], "again": [[], [0], [0, 1]]},
     ]
+    OFF = {"vec_numpy": False, "reuse_list": False, "shared_param": False, "constr": False, "id_collide": False}
+    corpus += [
+        # designs evaluated by a plain Evaluator before they are submitted; numpy vectors; one list object re-used for every
+        # call; one parameter dict shared by all axes; constraint (feasibility flag varies); colliding ids; vectors whose
+        # hashes collide (-1.0 / -2.0) or that are `==` for Individual.__eq__ (0.5 / 0.5 + 1e-11)
+        {"wc": True, "n": 2, "m": 2, "tols": [0.25, 0.25], "objs": q2, "batches": [[[0.5, 0.5], [0.1, 0.2]], [[0.5, 0.5]]],
+         "pre": [[True, False], [True]], "flags": dict(OFF, shared_param=True)},
+        {"wc": False, "n": 2, "m": 1, "tols": [0.1, 0.1], "objs": q1, "batches": [[[0.5, 0.5], [0.1, 0.2]], [[0.3, 0.3]]],
+         "pre": [[False, True], [False]], "flags": dict(OFF, reuse_list=True)},
+        {"wc": True, "n": 2, "m": 1, "tols": [1.0, 1e-11], "objs": [{"kind": "hash", "a": [0.0], "b": 1.0}],
+         "batches": [[[-1.0, 0.5], [-2.0, 0.50000000001]], [[-1.0, 0.50000000001], [-2.0, 0.5]]],
+         "flags": dict(OFF, reuse_list=True, id_collide=True)},
+        {"wc": True, "n": 3, "m": 2, "tols": [0.5, 0.5, 0.5], "objs": q2, "batches": [[[0.1, 0.2, 0.4]], [[1.0, 0.0, -1.0], [0.1, 0.2, 0.4]]],
+         "flags": dict(OFF, vec_numpy=True, shared_param=True, constr=True)},
+        {"wc": False, "n": 2, "m": 2, "tols": [0.5, 0.5], "objs": q2, "batches": [[[0.1, 0.2]], [[1.0, 0.0], [0.1, 0.2]]],
+         "flags": dict(OFF, vec_numpy=True, constr=True, id_collide=True)},
+    ]
     for f in corpus:
-        add(gen_case(rng, dict(f, criteria=["minimize", "maximize"][:f["m"]], ret_numpy=False)))
+        add(gen_case(rng, dict({"flags": OFF}, **dict(f, criteria=["minimize", "maximize"][:f["m"]], ret_numpy=False))))
     for _ in range(ctx.pick(450, 6000)):
         add(gen_case(rng))
     for _ in range(ctx.pick(12, 100)):
@@ -552,7 +631,9 @@ def run(ctx):
     ctx.rule = ("whole evaluator lives: 1..4 batches of 1..4 fresh designs (vectors from a grid of %d values so that designs, neighbours and "
                 "batches share vectors), 1..3 parameters with tolerances from %r, 1..2 user objectives from the families %r with grid "
                 "coefficients, pushed through Algorithm.evaluate with EvaluatorType.WORST_CASE / GRADIENT, plus short EpsMOEA / NSGAII runs "
-                "with either evaluator (generations = batches) and a hand-written corpus; a case is non-trivial when it has at least two "
+                "with either evaluator (generations = batches) and a hand-written corpus; side streams: evaluated designs submitted again (12%%), "
+                "designs evaluated by a plain Evaluator first (10%%), numpy vectors, one re-used batch list object, a shared parameter dict, "
+                "an inequality constraint, colliding ids; a case is non-trivial when it has at least two "
                 "batches and did not raise; distinct = distinct (mode, evaluator, tolerances, objectives, batches)"
                 % (len(VGRID), TOLS, sorted(set(FAMILIES))))
     ctx.extra.update({"input_distribution": hist})
